@@ -4,6 +4,8 @@
 //!   C09.cnt <bdd>      => exact clause f64bits support size_per_variable size npaths
 //!   C09.law <n> <a> <b> => |a| |b| |a or b| |a and b| |not a|        (or/and/not by the real library)
 //!   C09.bad <bdd>      => exact clause        (malformed stream: `panic` is an outcome)
+//!   C09.res <op> <f> <vars> <arg> => result exact clause f64bits support size_per_variable size
+//!        (the counting functions applied to the RESULT of a library operation on f, computed here)
 #[path = "../common.rs"]
 mod common;
 use common::*;
@@ -52,6 +54,41 @@ pub fn run(key: &str, a: &[String], out: &mut Out) {
             let cand = catch(|| x.and(&y).exact_cardinality());
             let cnot = catch(|| x.not().exact_cardinality());
             out.case(key, a, &[or_panic(ca), or_panic(cb), or_panic(cor), or_panic(cand), or_panic(cnot)]);
+        }
+        "C09.res" => {
+            let f = Bdd::from_string(&a[1]);
+            let vars: Vec<BddVariable> = if a[2] == "~" { vec![] } else { a[2].split(',').map(|x| var(x.parse().unwrap())).collect() };
+            let bits: Vec<bool> = if a[3] == "~" || a[3].starts_with('|') { vec![] } else { a[3].chars().map(|c| c == '1').collect() };
+            let lits: Vec<(BddVariable, bool)> = vars.iter().cloned().zip(bits.iter().cloned()).collect();
+            let res = catch(|| match a[0].as_str() {
+                "exists" => f.exists(&vars),
+                "for_all" => f.for_all(&vars),
+                "project" => f.project(&vars),
+                "var_exists" => f.var_exists(vars[0]),
+                "var_for_all" => f.var_for_all(vars[0]),
+                "restrict" => f.restrict(&lits),
+                "var_restrict" => f.var_restrict(vars[0], bits[0]),
+                "select" => f.select(&lits),
+                "pick" => f.pick(&vars),
+                "var_pick" => f.var_pick(vars[0]),
+                "substitute" => f.substitute(vars[0], &Bdd::from_string(&a[3])),
+                "and_not" => f.and_not(&Bdd::from_string(&a[3])),
+                "not" => f.not(),
+                _ => panic!("bad op"),
+            });
+            match res {
+                None => out.case(key, a, &[s("panic")]),
+                Some(b) => {
+                    let exact = catch(|| b.exact_cardinality());
+                    let clause = catch(|| b.exact_clause_cardinality());
+                    let fl = catch(|| b.cardinality());
+                    let sup = catch(|| fmt_support(&b));
+                    let spv = catch(|| fmt_spv(&b));
+                    out.case(key, a, &[fmt_bdd(&b), or_panic(exact), or_panic(clause),
+                        match fl { Some(f) => format!("{:016x}", f.to_bits()), None => s("panic") },
+                        sup.unwrap_or(s("panic")), spv.unwrap_or(s("panic")), b.size().to_string()]);
+                }
+            }
         }
         "C09.bad" => {
             let b = Bdd::from_string(&a[0]);
@@ -264,6 +301,55 @@ pub fn gen(tier: Tier, rng: &mut Rng64, out: &mut Out) {
             };
             run("C09.law", &[n.to_string(), fmt_triples(&ta), fmt_triples(&tb)], out);
         }
+    }
+    // --- counting functions on RESULTS of library operations (a result with dead or redundant nodes would make
+    //     support_set / size_per_variable report variables the function does not depend on)
+    {
+        let res = |op: &str, f: &String, vars: &[usize], arg: String, out: &mut Out| run("C09.res", &[s(op), f.clone(), fmt_usizes(vars), arg], out);
+        // the smallest witness of a dead-node result: f = (x0 & (x1 | (x2 & x3))) | (!x0 & x4), exists x1
+        let wit: Vec<bool> = (0..32usize).map(|i| { let x = |k: usize| (i >> (4 - k)) & 1 == 1; (x(0) && (x(1) || (x(2) && x(3)))) || (!x(0) && x(4)) }).collect();
+        let wf = fmt_triples(&canon_triples(5, &wit));
+        for v in 0..5usize { for op in ["exists", "for_all", "var_exists", "var_for_all", "project", "var_pick"] { res(op, &wf, &[v], s("~"), out); } }
+        for _ in 0..(if thorough { 4000 } else { 220 }) {
+            let n = 4 + rng.below(3) as usize;
+            let f = fmt_bdd(&random_bdd(rng, n));
+            for v in 0..n {
+                res("var_exists", &f, &[v], s("~"), out);
+                res("var_for_all", &f, &[v], s("~"), out);
+                res("exists", &f, &[v], s("~"), out);
+                res("for_all", &f, &[v], s("~"), out);
+                if rng.chance(1, 3) { res("var_pick", &f, &[v], s("~"), out); }
+                if rng.chance(1, 3) { let b = rng.bool(); res("var_restrict", &f, &[v], fmt_bools(&[b]), out); }
+            }
+            // several variables at once, in random order
+            for _ in 0..3 {
+                let mut vs: Vec<usize> = (0..n).filter(|_| rng.chance(2, 5)).collect();
+                for i in (1..vs.len()).rev() { let j = rng.below(i as u64 + 1) as usize; vs.swap(i, j); }
+                if vs.is_empty() { continue; }
+                let bits: Vec<bool> = vs.iter().map(|_| rng.bool()).collect();
+                res(*rng.pick(&["exists", "for_all", "project", "pick"]), &f, &vs, s("~"), out);
+                res(*rng.pick(&["restrict", "select"]), &f, &vs, fmt_bools(&bits), out);
+            }
+            let g = fmt_bdd(&random_bdd(rng, n));
+            res("substitute", &f, &[rng.below(n as u64) as usize], g.clone(), out);
+            res("and_not", &f, &[], g, out);
+            if rng.chance(1, 4) { res("not", &f, &[], s("~"), out); }
+        }
+    }
+    // --- laws with an operand of more than 65 536 nodes (both operand orders): x18 & x19 and others against
+    //     dense pseudo-random functions of 20 variables (~107 000 nodes)
+    for k in 0..(if thorough { 8 } else { 2 }) {
+        let n = 20usize;
+        let tt: Vec<bool> = (0..(1usize << n)).map(|_| rng.bool()).collect();
+        let big = fmt_triples(&canon_triples(n, &tt));
+        let small = match k % 4 {
+            0 => fmt_triples(&cube_triples(n, &[(18, true), (19, true)])),
+            1 => fmt_triples(&cube_triples(n, &[(0, true), (19, false)])),
+            2 => { let pos = [3usize, 11, 17, 19]; let t = random_tt(rng, 4); fmt_triples(&gap_triples(n, &pos, &t)) }
+            _ => fmt_triples(&cube_triples(n, &[(19, true)])),
+        };
+        run("C09.law", &[n.to_string(), small.clone(), big.clone()], out);
+        run("C09.law", &[n.to_string(), big, small], out);
     }
     // --- malformed stream (kept apart): a reachable link outside the array is an index panic; garbage
     //     that the root does not reach is never looked at. Diagrams whose variables do not increase along
